@@ -28,6 +28,7 @@
 
 """Handling for log actions."""
 
+import string
 from typing import TYPE_CHECKING, List, Dict, Optional
 
 from .action_context import ActionContext
@@ -41,6 +42,50 @@ from typing import Tuple
 if TYPE_CHECKING:
     from ...api.tracepoint import WatchResult, Variable
     from .trigger_context import TriggerContext
+
+
+# these two types live at module level: a class is a reference cycle, so creating them in process_log (closing over the
+# action context) left every log action - and through it the paused frame and its values - to the garbage collector,
+# and the application's objects were finalised later than they are without us
+
+class FormatDict(dict):
+    """This type is used in the log process to ensure that missing values are formatted don't error."""
+
+    def __missing__(self, key):
+        """Render a missing value as its own placeholder."""
+        return "{%s}" % key
+
+
+class FormatExtractor(string.Formatter):
+    """
+    Allows logs to be formatted correctly.
+
+    This type allows us to use watches within log strings and collect the watch
+    as well as interpolate the values.
+    """
+
+    def __init__(self, ctx: 'LogActionContext', watch_results: List['WatchResult'], var_lookup: Dict[str, 'Variable']):
+        """
+        Create a new extractor.
+
+        :param ctx: the action context that evaluates the fields
+        :param watch_results: the list to add the watch results of the fields to
+        :param var_lookup: the dict to add the collected variables to
+        """
+        super().__init__()
+        self.__ctx = ctx
+        self.__watch_results = watch_results
+        self.__var_lookup = var_lookup
+
+    def get_field(self, field_name, args, kwargs):
+        """Evaluate a field of the log message as a watch."""
+        # evaluate watch
+        watch, var_lookup, log_str = self.__ctx.eval_watch(field_name, WATCH_SOURCE_LOG)
+        # collect data
+        self.__watch_results.append(watch)
+        self.__var_lookup.update(var_lookup)
+
+        return log_str, field_name
 
 
 class LogActionContext(ActionContext):
@@ -62,36 +107,11 @@ class LogActionContext(ActionContext):
             (list) watch: the watch results from the expressions
             (dic) vars: the collected variables
         """
-        ctx_self = self
         watch_results = []
         _var_lookup = {}
 
-        class FormatDict(dict):
-            """This type is used in the log process to ensure that missing values are formatted don't error."""
-
-            def __missing__(self, key):
-                return "{%s}" % key
-
-        import string
-
-        class FormatExtractor(string.Formatter):
-            """
-            Allows logs to be formatted correctly.
-
-            This type allows us to use watches within log strings and collect the watch
-            as well as interpolate the values.
-            """
-
-            def get_field(self, field_name, args, kwargs):
-                # evaluate watch
-                watch, var_lookup, log_str = ctx_self.eval_watch(field_name, WATCH_SOURCE_LOG)
-                # collect data
-                watch_results.append(watch)
-                _var_lookup.update(var_lookup)
-
-                return log_str, field_name
-
-        log_msg = "[deep] %s" % FormatExtractor().vformat(log_msg, (), FormatDict(self.trigger_context.locals))
+        extractor = FormatExtractor(self, watch_results, _var_lookup)
+        log_msg = "[deep] %s" % extractor.vformat(log_msg, (), FormatDict(self.trigger_context.locals))
         return log_msg, watch_results, _var_lookup
 
 
